@@ -431,6 +431,12 @@ func (ms *MidState) createImmatureSiacoinElement(id types.SiacoinOutputID, sco t
 func (ms *MidState) spendSiacoinElement(sce types.SiacoinElement, txid types.TransactionID) {
 	sced := ms.recordSiacoinElement(sce.ID)
 	sced.SiacoinElement = sce.Copy()
+	if sced.Created {
+		// NOTE: an element created within this block has no leaf yet. Nothing
+		// validates the proof attached to an ephemeral parent, so it must not
+		// leak into the diff (where addLeaves would extend it).
+		sced.SiacoinElement.StateElement = types.StateElement{LeafIndex: types.UnassignedLeafIndex}
+	}
 	sced.Spent = true
 	ms.spends[sce.ID] = txid
 }
@@ -459,6 +465,10 @@ func (ms *MidState) createSiafundElement(id types.SiafundOutputID, sfo types.Sia
 func (ms *MidState) spendSiafundElement(sfe types.SiafundElement, txid types.TransactionID) {
 	sfed := ms.recordSiafundElement(sfe.ID)
 	sfed.SiafundElement = sfe.Copy()
+	if sfed.Created {
+		// see spendSiacoinElement
+		sfed.SiafundElement.StateElement = types.StateElement{LeafIndex: types.UnassignedLeafIndex}
+	}
 	sfed.Spent = true
 	ms.spends[sfe.ID] = txid
 }
